@@ -1,5 +1,5 @@
 import ScionVerif.Generated.Comb
-import ScionVerif.Model.Beacon
+import ScionVerif.Model.BeaconSeg
 /-!
 # Model of `sciparse::path::combinator` (combinator.rs + combinator/graph.rs)
 
